@@ -39,7 +39,7 @@ include hN env0 hp hpix0
 theorem cand_above {pan : List Tgt} {n : Option Nat} (h : CandRel N c emb s0 s pan n) :
     CandRel N c emb s0 (exec fuel (bAbove N) s) (fromAbove c row p pan n).1 (fromAbove c row p pan n).2 ∧
     HasD N emb p (exec fuel (bAbove N) s) (fromAbove c row p pan n).1 (fromAbove c row p pan n).2 := by
-  have env := env0.of_frame hN h.frame
+  have env := env0.of_pix hN h.frame
   have hpix : s.ienv (N.nm .pixel) = p := by rw [h.frame.keepI hN .pixel rfl, hpix0]
   have hrel := h.pan p hp
   cases hm : pan.getD p none with
@@ -92,7 +92,7 @@ theorem cand_nb {pan : List Tgt} {n : Option Nat} (h : CandRel N c emb s0 s pan 
           else (s.ienv (N.nm g) ≠ s.ienv (N.nm lim) ∧ s.ienv (N.nm q) = qn ∧ qn < c.W)) :
     CandRel N c emb s0 (exec fuel (bNb N g q lim) s) (stepNb c row p skip qn (pan, n)).1 (stepNb c row p skip qn (pan, n)).2 ∧
     HasD N emb p (exec fuel (bNb N g q lim) s) (stepNb c row p skip qn (pan, n)).1 (stepNb c row p skip qn (pan, n)).2 := by
-  have env := env0.of_frame hN h.frame
+  have env := env0.of_pix hN h.frame
   have hpix : s.ienv (N.nm .pixel) = p := by rw [h.frame.keepI hN .pixel rfl, hpix0]
   cases skip with
   | true =>
@@ -165,7 +165,7 @@ theorem cand_upd {m : LineSt} (rel0 : LineRel c emb s0 m) {pan : List Tgt} {n : 
     (h : CandRel N c emb s0 s pan n) (hd : HasD N emb p s pan n) :
     (exec fuel (bUpd N) s).ctl = .run ∧ PixFrame N s0 (exec fuel (bUpd N) s) ∧
     LineRel c emb (exec fuel (bUpd N) s) (update c m p pan n) := by
-  have env := env0.of_frame hN h.frame
+  have env := env0.of_pix hN h.frame
   have hpix : s.ienv (N.nm .pixel) = p := by rw [h.frame.keepI hN .pixel rfl, hpix0]
   rw [upd_exec N hN s fuel h.ctl c.H c.W p env.shp hp hpix]
   have base : LineRel c emb s { pan := pan, lp := m.lp, nr := m.nr } :=
@@ -256,7 +256,7 @@ theorem pixel_refines {N : Names} (hN : N.WF) {c : Cfg} {emb : Nat → F} {tg : 
   have e1 : s1.ia = s.ia ∧ s1.fa = s.fa ∧ s1.ctl = .run ∧ s1.benv (N.nm .isTarget) = false := by
     subst hs1; exact ⟨rfl, rfl, hs, by simp [setS]⟩
   obtain ⟨e1i, e1f, c1, t1⟩ := e1
-  have env1 := env.of_frame hN f1
+  have env1 := env.of_pix hN f1
   have hpix1 : s1.ienv (N.nm .pixel) = p := by rw [f1.keepI hN .pixel rfl, hpix]
   -- the target test
   obtain ⟨c2, t2, so2, fe2, ie2, be2⟩ := test_exec N hN s1 fuel c1 p c.W (s1.fa N.vals).length hp hpix1 env1.shp.src
@@ -268,7 +268,7 @@ theorem pixel_refines {N : Names} (hN : N.WF) {c : Cfg} {emb : Nat → F} {tg : 
     ⟨so2.shp, so2.ext, fun v hv => ie2 v (hv .i rfl), fun v _ => by rw [fe2], fun v hv => be2 v (hv .isTarget rfl),
      fun a _ _ _ _ => by rw [so2.ia], fun a _ => by rw [so2.fa]⟩
   have f2 : PixFrame N s s2 := f1.trans f12
-  have env2 := env.of_frame hN f2
+  have env2 := env.of_pix hN f2
   have hpix2 : s2.ienv (N.nm .pixel) = p := by rw [f2.keepI hN .pixel rfl, hpix]
   have e2i : s2.ia = s.ia := by rw [so2.ia, e1i]
   have e2f : s2.fa = s.fa := by rw [so2.fa, e1f]
